@@ -1,9 +1,15 @@
-use svgdx::Result;
+use std::process::ExitCode;
 
 use svgdx::cli::{get_config, run};
 
-fn main() -> Result<()> {
-    run(get_config()?)?;
-
-    Ok(())
+fn main() -> ExitCode {
+    // Errors are reported through `Display`, which is stable from run to run (the
+    // `Debug` form of a multi-element error lists a hash map in arbitrary order).
+    match get_config().and_then(run) {
+        Ok(()) => ExitCode::SUCCESS,
+        Err(e) => {
+            eprintln!("Error: {e}");
+            ExitCode::FAILURE
+        }
+    }
 }
